@@ -1,6 +1,7 @@
 package main
 
 import (
+	"golang.org/x/tools/go/ssa"
 	"time"
 	"flag"
 	"fmt"
@@ -15,6 +16,7 @@ func cmdVC(args []string) int {
 	timeout := fs.Int("timeout", 10, "seconds per obligation")
 	show := fs.Bool("smt", false, "print script")
 	inl := fs.Int("inline", 4, "max inline depth")
+	budget := fs.Int("budget", 0, "inline budget")
 	var keys []string
 	for len(args) > 0 && !strings.HasPrefix(args[0], "-") {
 		keys = append(keys, args[0])
@@ -41,7 +43,7 @@ func cmdVC(args []string) int {
 			rc = 2
 			continue
 		}
-		vc := NewVC(P, C, fn, VCOpts{Safety: *safety, MaxInline: *inl, Canary: true})
+		vc := NewVC(P, C, fn, VCOpts{Safety: *safety, MaxInline: *inl, Canary: true, InlineBudget: *budget})
 		vc.Generate()
 		if *show {
 			fmt.Println(vc.sc.Incremental())
@@ -78,6 +80,8 @@ func cmdSweep(args []string) int {
 	fs := flag.NewFlagSet("sweep", flag.ExitOnError)
 	timeout := fs.Int("timeout", 5, "seconds per obligation")
 	filter := fs.String("f", "", "function key prefix filter (comma separated)")
+	inl := fs.Int("inline", 2, "max inline depth")
+	budget := fs.Int("budget", 300, "inlined instruction budget")
 	fs.Parse(args)
 	P, err := LoadProgram()
 	if err != nil {
@@ -94,7 +98,7 @@ func cmdSweep(args []string) int {
 	var keys []string
 	for _, k := range P.sortedFuncKeys() {
 		fn := P.Funcs[k]
-		if !isModuleFunc(fn) || len(fn.Blocks) == 0 || strings.Contains(k, "mock.") || strings.HasSuffix(k, ".init") {
+		if !isModuleFunc(fn) || len(fn.Blocks) == 0 || strings.Contains(k, "mock.") || strings.HasSuffix(k, ".init") || isGeneratedFunc(P, fn) {
 			continue
 		}
 		if *filter != "" {
@@ -129,7 +133,7 @@ func cmdSweep(args []string) int {
 				done <- i
 			}()
 			t0 := time.Now()
-			vc := NewVC(P, C, P.Funcs[k], VCOpts{Safety: true, Canary: true})
+			vc := NewVC(P, C, P.Funcs[k], VCOpts{Safety: true, Canary: true, MaxInline: *inl, InlineBudget: *budget})
 			vc.Generate()
 			t1 := time.Now()
 			d.Discharge(vc)
@@ -162,4 +166,12 @@ func cmdSweep(args []string) int {
 	}
 	fmt.Printf("functions=%d obligations=%d failed=%d panics=%d\n", len(keys), nOb, nFail, nPanic)
 	return 0
+}
+
+// isGeneratedFunc: functions in generated files (enumer) are not swept.
+func isGeneratedFunc(P *Program, fn *ssa.Function) bool {
+	if !fn.Pos().IsValid() {
+		return false
+	}
+	return strings.HasSuffix(P.Prog.Fset.Position(fn.Pos()).Filename, "_enumer.go")
 }
